@@ -137,11 +137,23 @@ class SS58Decoder:
         # Decode string
         dec_bytes = Base58Decoder.Decode(data_str)
 
+        # The format occupies at least one byte
+        if len(dec_bytes) == 0:
+            raise ValueError("Invalid data length (0)")
+        # First byte values 128-255 are reserved
+        if dec_bytes[0] & 0x80:
+            raise ValueError(f"Invalid SS58 format byte ({dec_bytes[0]})")
+
         # Full address
         if dec_bytes[0] & 0x40:
+            if len(dec_bytes) < 2:
+                raise ValueError(f"Invalid data length ({len(dec_bytes)})")
             ss58_format_len = 2
             ss58_format = ((dec_bytes[0] & 0x3F) << 2) | (dec_bytes[1] >> 6) | \
                           ((dec_bytes[1] & 0x3F) << 8)
+            # Formats that fit one byte shall use the one-byte encoding
+            if ss58_format <= SS58Const.SIMPLE_ACCOUNT_FORMAT_MAX_VAL:
+                raise ValueError(f"Invalid SS58 format encoding ({ss58_format})")
         # Simple account
         else:
             ss58_format_len = 1
